@@ -109,11 +109,12 @@ def plot_burst_detect_summary(df_features, sig, fs, threshold_kwargs, xlim=None,
     is_osc = np.zeros(len(sig), dtype=bool)
     df_osc = df_features.loc[df_features['is_burst']]
     start = 0 if xlim is None else xlim[0]
+    offset = int(np.round(fs * start))
 
     for cyc in df_osc.to_dict('records'):
 
-        samp_start_burst = int(cyc['sample_last_' + side_e]) - int(fs * start)
-        samp_end_burst = int(cyc['sample_next_' + side_e] + 1) - int(fs * start)
+        samp_start_burst = int(cyc['sample_last_' + side_e]) - offset
+        samp_end_burst = int(cyc['sample_next_' + side_e] + 1) - offset
 
         is_osc[samp_start_burst:samp_end_burst] = True
 
@@ -139,10 +140,10 @@ def plot_burst_detect_summary(df_features, sig, fs, threshold_kwargs, xlim=None,
         # Highlight where a burst param falls below threshold
         for cyc in df_features.to_dict('records'):
 
-            last_cyc = int(cyc['sample_last_' + side_e]) - int(fs * start)
-            next_cyc = int(cyc['sample_next_' + side_e]) - int(fs * start)
+            last_cyc = int(cyc['sample_last_' + side_e]) - offset
+            next_cyc = int(cyc['sample_next_' + side_e]) - offset
             if cyc[column] < threshold_kwargs[osc_key] and last_cyc > 0:
-                axes[0].axvspan(times[last_cyc], times[next_cyc],
+                axes[0].axvspan(times[last_cyc], times[min(next_cyc, len(times) - 1)],
                  alpha=0.5, color=color, lw=0)
 
         # Plot each burst param on separate axes
@@ -235,7 +236,7 @@ def plot_burst_detect_param(df_features, sig, fs, burst_param, thresh,
 
         # Remove start / end cycles that tlims falls between
         df_features = df_features[(df_features['sample_last_' + side_e] >= 0) & \
-                                  (df_features['sample_next_' + side_e] < xlim[1]*fs)]
+                                  (df_features['sample_next_' + side_e] < len(times))]
 
     # Plot burst param
     if interp:
